@@ -208,6 +208,7 @@ def case_inflow_driven(prog, cfg):
     sw.prm_values = cfg.get("prm_values")
     sw.zero_prm = cfg.get("zero_prm")
     sw.layout = cfg.get("layout")
+    sw.tiny_label = bool(cfg.get("tiny_label"))
     dist = cfg["dist"]
     case = SCase("inflow-driven", "InflowDrivenDSM.compute", cfg_desc(cfg))
     kind, r = run_guarded(lambda: inflow_driven(sw, dist, cfg))
@@ -227,12 +228,13 @@ def case_inflow_driven(prog, cfg):
     # unit impulse response: coefficient of in[c] in stock[t] is sf[t,c] * dt[c]
     sf = sw.it.get_attr(lm, "sf")
     dt = sw.dt()
+    drv_in = sw.driver("in")
     ok, msg = True, ""
     for t in range(sw.n_t):
         for l in sw.label_indices():
             exp = rat(0)
             for c in range(sw.n_t):
-                exp = exp + Rat.sym("in_" + "_".join(map(str, (c,) + l))) * dt[c] * sf.get((t, c) + l)
+                exp = exp + drv_in.get((c,) + l) * dt[c] * sf.get((t, c) + l)
             if not (res["stock"].get((t,) + l) == exp):
                 ok, msg = False, f"stock{[t, *l]} is not the sum over cohorts of inflow rate x interval length x survival share"
     case.v("impulse", ok, msg, "InflowDrivenDSM._compute_stock")
@@ -240,6 +242,8 @@ def case_inflow_driven(prog, cfg):
     sw2 = SW(prog, cfg["n_t"], cfg["labels"], shift=Rat.sym("shift"), grid=cfg.get("grid"))
     sw2.prm_values = cfg.get("prm_values")
     sw2.layout = cfg.get("layout")
+    sw2.tiny_label = sw.tiny_label
+    sw2.zero_prm = sw.zero_prm
     kind, r2 = run_guarded(lambda: inflow_driven(sw2, dist, cfg))
     if kind == "ok":
         res2 = results(r2[0])
@@ -336,6 +340,7 @@ def case_stock_driven(prog, cfg):
     sw.prm_values = cfg.get("prm_values")
     sw.zero_prm = cfg.get("zero_prm")
     sw.layout = cfg.get("layout")
+    sw.tiny_label = bool(cfg.get("tiny_label"))
     dist = cfg["dist"]
     case = SCase("stock-driven", "StockDrivenDSM.compute", cfg_desc(cfg))
     kind, r = run_guarded(lambda: inflow_driven(sw, dist, cfg))
@@ -792,6 +797,10 @@ def dsm_configs(tier):
         for dist in ("NormalLifetime", "FixedLifetime"):
             out.append(dict(n_t=4, labels=(), dist=dist, over="number", n_pts=1, inflow_at="middle"))
         out.append(dict(n_t=4, labels=("a",), dist="NormalLifetime", over="all", n_pts=1, inflow_at="middle"))
+    # one label smaller than the other by many orders of magnitude (factor eps^2): a threshold derived from the LARGEST value of the
+    # whole array must not touch the small label
+    for dist in ("NormalLifetime", "FixedLifetime") if tier == "quick" else DISTS:
+        out.append(dict(n_t=3, labels=("a",), dist=dist, over="all", n_pts=1, inflow_at="middle", tiny_label=True))
     return out
 
 
